@@ -254,7 +254,8 @@ def run_case(spec, j):
       u, v = Xq[0], Xq[1]
       if f.est.get_metric()(u, v) != e2.get_metric()(u, v):
         same = False
-    changed = fp_diff(fp_map(vars(f.est)), fp_map(vars(e2)))
+    changed = fp_diff(fp_map(api._fitted_state(f.est)),
+                      fp_map(api._fitted_state(e2)))
     j.check('C18.pickle-bitwise', same and not changed,
             dict(det0, changed=changed))
   if j.sample is None:
